@@ -34,8 +34,9 @@ def a64_gpr_alias(n, rng, wide=False):
     return "%s%d" % ("x" if wide else rng.choice("xxw"), n)
 
 
-def a64_vec_alias(n, rng):
-    return "%s%d" % (rng.choice("dqsd"), n)
+def a64_vec_alias(n, rng, sve=False):
+    # sve: also the SVE view z<n> and the narrow scalar views b<n>/h<n> of the same vector register
+    return "%s%d" % (rng.choice("dqsdzzbh" if sve else "dqsd"), n)
 
 
 def fam_of(isa, name):
@@ -237,7 +238,7 @@ class Pool:
         n = rng.choice(self.v)
         if cls_pat:
             return "%s%d" % (cls_pat, n)
-        return a64_vec_alias(n, rng)
+        return a64_vec_alias(n, rng, getattr(self, "sve", False))
 
     def addr_reg(self, rng):
         if self.isa == "x86":
